@@ -675,6 +675,15 @@ func vaultExecuted(evs []abcitypes.Event) (out []vault.ActionExecutedEvent) {
 	return
 }
 
+// vaultActors returns the vaults whose actions a transaction executed (the executed message runs
+// with the vault as the caller, so the vault is an acting account of the transaction).
+func vaultActors(evs []abcitypes.Event) (out []staking.Address) {
+	for _, ee := range vaultExecuted(evs) {
+		out = append(out, ee.Vault)
+	}
+	return
+}
+
 func vaultExecFailed(ee *vault.ActionExecutedEvent) bool {
 	return ee.Result.Module != "" || ee.Result.Code != 0
 }
